@@ -6,13 +6,14 @@
    each document denotes (denote_xmi / denote_json) the content of the CAS written to it and loaded from it; the reader
    model load_json yields the loaded content; and on each of the four CASes the XMI view is inline_of of the JSON view —
    so that "XMI view of the final CAS = XMI view of the first-loaded CAS" is what the composition says. *)
-From Cassis Require Import Base Heap Schema Canon Lex JsonDoc Json CorrC02 Convert.
-From Cassis Require XmiDoc.
+From Cassis Require Import Base Heap Schema Canon Lex JsonDoc Json CorrC02 Convert ConvertWf.
+From Cassis Require XmiDoc Xmi XmiRt.
 Open Scope Z_scope.
 
 Record case := mkCase {
   k_user : schema;
   k_ftab : list (string * flt);
+  k_cas : cas;                      (* the scenario CAS both chains start from (every structure has an explicit id) *)
   a_xmi : XmiDoc.xdoc; a1_json : ccas; a1_xmi : ccas; a_doc : json; a2_json : ccas; a2_xmi : ccas;
   b_doc : json; b1_json : ccas; b1_xmi : ccas; b_xmi : XmiDoc.xdoc; b2_json : ccas; b2_xmi : ccas }.
 
@@ -24,6 +25,20 @@ Definition xmi_denotes (c : case) (s : schema) (d : XmiDoc.xdoc) (x : ccas) : bo
   end.
 Definition json_denotes (s : schema) (d : json) (x : ccas) : bool :=
   doc_ok_json std_lex s d && res_ccas_eqb (denote_json std_lex s d) x.
+
+(* premises of the theorems in Props/C16.v, evaluated on the scenario CAS (the CAS loaded first in either chain has its
+   content): wf_convb (C16_inline_outline, C16_xmi_json_xmi, C16_json_xmi_json) and wf_rtb (the XMI reader leg, C01) *)
+Definition premises (c : case) : bool :=
+  let s := full_schema (k_user c) in
+  wf_convb s (k_cas c) && XmiRt.wf_rtb s (k_cas c).
+(* the theorem C16_inline_outline on the scenario CAS, in model terms: both canonical views exist and are related, and they
+   are the views observed of the CAS loaded first in chain B (which keeps the ids of the scenario) *)
+Definition model_views (c : case) : bool :=
+  let s := full_schema (k_user c) in
+  match canon_json s (k_cas c), Xmi.canon_xmi s (k_cas c) with
+  | Ok j, Ok x => inline_outlineb s j x && ccas_eqb j (b1_json c) && ccas_eqb x (b1_xmi c)
+  | _, _ => false
+  end.
 
 Definition checks (c : case) : list bool :=
   let s := full_schema (k_user c) in
@@ -41,9 +56,7 @@ Definition checks (c : case) : list bool :=
     inline_outlineb s (b1_json c) (b1_xmi c);
     xmi_denotes c s (b_xmi c) (b1_xmi c);                 (* the XMI written from it describes its XMI view *)
     xmi_denotes c s (b_xmi c) (b2_xmi c);                 (* and is what the final CAS holds *)
-    inline_outlineb s (b2_json c) (b2_xmi c) ].
+    inline_outlineb s (b2_json c) (b2_xmi c);
+    (* the models on the scenario CAS *)
+    negb (premises c) || model_views c ].
 Definition check_case (c : case) : bool := forallb (fun b => b) (checks c).
-(* premises of the theorems in Props/C16.v that can be evaluated on a case: the canonical views are related *)
-Definition premises (c : case) : bool :=
-  let s := full_schema (k_user c) in
-  inline_outlineb s (a1_json c) (a1_xmi c) && inline_outlineb s (b1_json c) (b1_xmi c).
